@@ -46,7 +46,8 @@ var objs=[ {a:1,b:2}, {a:1,b:2}, {b:2,a:1}, Object.create(P0), Object.create(P1)
 objs[3].x='o3.x'; objs[4].b='o4.b';
 // receivers with unique (dictionary) shapes: builtin namespace / prototype objects and a user object pushed into dictionary mode
 var dict={}; for (var i=0;i<1100;i++){ dict['t'+i]=i; } for (var i=0;i<1100;i++){ delete dict['t'+i]; } dict.a='dict.a';
-objs.push(Math, Array.prototype, dict, globalThis);
+class MyArr extends Array { get acc(){ return 'MyArr.acc:'+this.length; } }
+objs.push(Math, Array.prototype, dict, globalThis, MyArr.from([7,8]));
 function warm(){ var all=objs.concat(prims); for (var i=0;i<sites.length;i++) for (var j=0;j<all.length;j++){ try { sites[i][1](all[j]); } catch(e){} } }
 var prims=[5, 'str', true, 10n, Symbol.iterator];
 "#;
@@ -57,7 +58,7 @@ fn site_defs(rng: &mut Rng) -> Vec<String> {
     for k in 0..n {
         let nm = *rng.pick(NAMES);
         let g = *rng.pick(GLOBALS);
-        let def = match rng.below(12) {
+        let def = match rng.below(15) {
             0..=3 => format!("get_{nm}_{k}|function(o){{ return show(o.{nm}); }}"),
             4 | 5 => format!("set_{nm}_{k}|function(o){{ o.{nm}='w{k}'; return show(o.{nm}); }}"),
             6 => format!("call_{nm}_{k}|function(o){{ return show(o.{nm}()); }}"),
@@ -65,7 +66,10 @@ fn site_defs(rng: &mut Rng) -> Vec<String> {
             8 => format!("opt_{nm}_{k}|function(o){{ return show(o?.{nm}); }}"),
             9 => format!("gread_{g}_{k}|function(o){{ return show(typeof {g}=='undefined' ? 'undef' : {g}); }}"),
             10 => format!("gwrite_{g}_{k}|function(o){{ {g}=(typeof {g}=='number' ? {g}+1 : 0); return show({g}); }}"),
-            _ => format!("len_{k}|function(o){{ return show(o.length); }}"),
+            11 => format!("len_{k}|function(o){{ return show(o.length); }}"),
+            12 => format!("sset_{nm}_{k}|function(o){{ 'use strict'; o.{nm}='s{k}'; return show(o.{nm}); }}"),
+            13 => format!("gthis_{nm}_{k}|function(o){{ var v=o.{nm}; return show(v)+'/'+(typeof o); }}"),
+            _ => format!("delget_{nm}_{k}|function(o){{ var had=('{nm}' in Object(o)); return show(o.{nm})+(had?'+':'-'); }}"),
         };
         out.push(def);
     }
@@ -74,13 +78,13 @@ fn site_defs(rng: &mut Rng) -> Vec<String> {
 }
 
 fn gen_op(rng: &mut Rng) -> String {
-    let o = format!("objs[{}]", rng.below(16));
+    let o = format!("objs[{}]", rng.below(17));
     let p = *rng.pick(&["P0", "P1", "C.prototype", "D.prototype", "Object.prototype", "Array.prototype", "Function.prototype"]);
     let target = if rng.chance(1, 2) { o.clone() } else { p.to_string() };
     let nm = *rng.pick(NAMES);
     let g = *rng.pick(GLOBALS);
     let v = rng.below(100);
-    match rng.below(31) {
+    match rng.below(39) {
         0..=2 => format!("{target}.{nm}={v};"),
         3 | 4 => format!("delete {target}.{nm};"),
         5 => format!("Object.defineProperty({target},'{nm}',{{get(){{ return 'getter{v}'; }}, configurable:true, enumerable:true}});"),
@@ -108,7 +112,14 @@ fn gen_op(rng: &mut Rng) -> String {
         27 => format!("warm(); Object.setPrototypeOf({o}, {}); warm(); Object.setPrototypeOf({o}, {});", rng.pick(&["P0", "P1", "C.prototype"]), rng.pick(&["P1", "P0", "null", "Object.prototype"])),
         28 => format!("{p}.{nm}='own{v}'; warm(); {o}.{nm}='shadow{v}'; warm(); delete {o}.{nm};"),
         29 => format!("globalThis.{g}={v}; warm(); delete globalThis.{g}; globalThis.gz{v}={v};"),
-        _ => format!("warm(); delete {target}.{nm}; warm(); {target}.{nm}='back{v}';"),
+        30 => format!("warm(); delete {target}.{nm}; warm(); {target}.{nm}='back{v}';"),
+        31 | 32 => format!("Object.defineProperty({target},'{nm}',{{get(){{ return 'G{v}:'+(typeof this)+':'+(this===null||this===undefined ? 'nullish' : (Object(this)===this ? 'obj' : String(this)))+':'+(this && this.x); }}, set(w){{ 'use strict'; try {{ this._w{v}=w; }} catch(e){{}} }}, configurable:true, enumerable:true}});"),
+        33 => format!("Object.defineProperty({},'{nm}',{{get(){{ return 'prim{v}:'+(typeof this); }}, configurable:true}});", rng.pick(&["Number.prototype", "String.prototype", "Boolean.prototype", "BigInt.prototype", "Symbol.prototype"])),
+        34 => format!("Object.defineProperty({},'length',{{get(){{ return {v}; }}, configurable:true}});", rng.pick(&["C.prototype", "P0", "MyArr.prototype", "objs[9]"])),
+        35 => format!("RAW:let {g} = 'lexical{v}';"),
+        36 => format!("RAW:var {g} = 'var{v}'; function gf{v}(){{ return {g}; }}"),
+        37 => format!("Object.defineProperty({target},'{nm}',{{enumerable:{}, writable:{}}});", rng.chance(1, 2), rng.chance(1, 2)),
+        _ => format!("warm(); {o}.{nm}='w'; Object.{}({o}); warm();", rng.pick(&["freeze", "seal", "preventExtensions"])),
     }
 }
 
@@ -193,7 +204,11 @@ fn run_config(sc: &Scenario, ic: Ic, gc: bool) -> Out {
         step(PROBE, &mut log, "probe");
         for (i, op) in sc.ops.iter().enumerate() {
             // mutations may legitimately throw (frozen objects...): both sides must agree
-            step(&format!("try {{ {op} }} catch (e) {{ print('op{i} !'+e.name); }}"), &mut log, "op");
+            match op.strip_prefix("RAW:") {
+                // top-level declarations (a global `let` shadows a property of the global object)
+                Some(raw) => step(raw, &mut log, "raw-op"),
+                None => step(&format!("try {{ {op} }} catch (e) {{ print('op{i} !'+e.name); }}"), &mut log, "op"),
+            }
             step(PROBE, &mut log, "probe");
         }
     }
@@ -296,12 +311,12 @@ pub fn shrink(v: &Value) -> Vec<Value> {
 pub const PROP: Prop = Prop {
     id: "C06",
     level: "exploration",
-    runs_quick: 3_000,
+    runs_quick: 1_500,
     runs_thorough: 120_000,
     generate,
     execute,
     shrink,
-    rule: "one run = one scenario (16 pooled receivers incl. arrays, functions, class instances, null-prototype and arguments objects, and four unique-shape (dictionary) receivers: Math, Array.prototype, a user object pushed into dictionary mode, globalThis + 5 primitive receivers; prototype chains P0<-P1, C<-D, built-in prototypes; 5..11 access sites drawn from get/set/call/compound/optional/global read/global write/length/super forms; a history of 6..30 (quick) / 6..60 (thorough) mutations drawn from 31 kinds (7 of them composite, with a warm-up of every site in the middle: install-use-remove-replace, data-to-accessor, prototype swap, shadow/unshadow, global install/remove): add, delete, redefine as accessor / read-only / setter, reorder or shift a prototype's layout, setPrototypeOf, preventExtensions/seal/freeze, dictionary mode, megamorphic storm, shadow/unshadow, pool replacement, global object mutations) executed in 5 configurations: cache off (reference), on, on + collections, buggified, buggified + collections; after every mutation every site runs against every receiver; non-trivial = always (every run compares four cached configurations against the uncached one); distinct = distinct (site count, history length, hit/miss/stale counters of the four configurations)",
+    rule: "one run = one scenario (16 pooled receivers incl. arrays, functions, class instances, null-prototype and arguments objects, and four unique-shape (dictionary) receivers: Math, Array.prototype, a user object pushed into dictionary mode, globalThis + 5 primitive receivers; prototype chains P0<-P1, C<-D, built-in prototypes; 5..11 access sites drawn from get / set / strict-mode set / call / compound / optional / global read / global write / length / receiver-sensitive get / super forms; a history of 6..30 (quick) / 6..60 (thorough) mutations drawn from 39 kinds (this-sensitive accessors, getters on primitives' prototypes, `length` getters, attribute-only changes, top-level lexical declarations shadowing global properties; 8 of them composite, with a warm-up of every site in the middle: install-use-remove-replace, data-to-accessor, prototype swap, shadow/unshadow, global install/remove): add, delete, redefine as accessor / read-only / setter, reorder or shift a prototype's layout, setPrototypeOf, preventExtensions/seal/freeze, dictionary mode, megamorphic storm, shadow/unshadow, pool replacement, global object mutations) executed in 5 configurations: cache off (reference), on, on + collections, buggified, buggified + collections; after every mutation every site runs against every receiver; non-trivial = always (every run compares four cached configurations against the uncached one); distinct = distinct (site count, history length, hit/miss/stale counters of the four configurations)",
     real: &["lexer/parser/compiler/VM/builtins", "shapes, property maps, inline caches", "boa_gc (weak shapes)"],
     stub: &["inline-cache interference (hook H3: forced miss / skipped fill / off)", "collection trigger decision (hook H1)"],
     assumptions: &[
